@@ -38,7 +38,10 @@ def nds_front(F):
 
 
 def gen_front(rng, N, M):
-    k = rng.randint(8)
+    return gen_front_kind(rng, N, M, rng.randint(8))
+
+
+def gen_front_kind(rng, N, M, k):
     if k == 0:                                    # simplex-like continuous front
         F = rng.random_sample((3 * N, M))
         F = F / F.sum(axis=1, keepdims=True)
@@ -82,7 +85,8 @@ def gen(rng, n_cases, max_n=40):
         n_remove = 0 if k == 0 else (1 if k == 1 else int(rng.randint(0, n + 1)))
         # how the caller holds the objective matrix: C order, Fortran order, a strided view, integer dtype
         layout = ["C", "C", "C", "F", "strided", "int"][rng.randint(6)]
-        yield {"label": label, "n_remove": n_remove, "F": F, "layout": layout}
+        # another crowding operator has just been evaluated on the same front with the same n_remove
+        yield {"label": label, "n_remove": n_remove, "F": F, "layout": layout, "rival": bool(rng.randint(3) == 0)}
 
 
 def case_from_record(rec):
@@ -295,6 +299,13 @@ def run_batch(cases):
                 Fc = as_layout(F, c.get("layout", "C"), wrapped) if F.ndim == 2 else F.copy()
                 if wrapped:
                     from pymoode.survival.rank_and_crowding import metrics
+                    if c.get("rival") and F.ndim == 2:
+                        base = BASE.get(c["label"], c["label"])
+                        other = "ce" if base == "cd" else "cd"
+                        metrics.get_crowding_function(other).do(F.copy(), n_remove=c["n_remove"])
+                        if base in ("mnn", "2nn", "pcd") and F.shape[1] == 2:
+                            metrics.get_crowding_function("2nn" if base != "2nn" else "mnn").do(F.copy(), n_remove=c["n_remove"])
+                        rec.tags.add("rival-metric")
                     r = np.array(metrics.get_crowding_function(label_object(c["label"])).do(Fc, n_remove=c["n_remove"]), dtype=float)
                     if not bits_equal(Fc, F):
                         rec.frames.append("the caller's array was modified by the crowding function")
